@@ -8,11 +8,11 @@ package eval
 // one rekeyed, one near its minimum balance, one empty) lives in a scripted in-memory ledger
 // (vc18Ledger: the whole ledger IS the universe, so every balance can be enumerated).  For every
 // block the real StartEvaluator (Validate+Generate) is started, random groups of 1..16
-// payment / close / keyreg transactions -- with failing members of varied kinds at varied
+// payment / close / keyreg / rekey / asset transactions -- with failing members of varied kinds at varied
 // positions -- are fed to the real BlockEvaluator.TransactionGroup, and after every call the
 // evaluator is snapshotted from inside the package: the account table seen through
-// eval.state.lookup, eval.state.mods.Accts order, Txids (with Intra), Txleases, txnCount,
-// feesCollected and len(Payset).  The block is then finished with GenerateBlock, given a
+// eval.state.lookup, asset params / holdings / creators, eval.state.mods.Accts order, Txids (with
+// Intra), Txleases, txnCount, feesCollected, len(Payset) and blockTxBytes.  The block is then finished with GenerateBlock, given a
 // proposer, re-validated with the real eval.Eval (validate mode: payouts are performed) and
 // its StateDelta is applied to the ledger; the resulting table is the last observation.
 // One case line = one block: inputs (parameters, previous state, abstract transactions) and
@@ -378,7 +378,7 @@ func (u *vc18U) snap(ev *BlockEvaluator) []interface{} {
 			}
 			return a, ok
 		})
-	return vL(table, mods, txids, leases, ev.state.txnCount, ev.state.feesCollected.Raw, len(ev.block.Payset), av, cr)
+	return vL(table, mods, txids, leases, ev.state.txnCount, ev.state.feesCollected.Raw, len(ev.block.Payset), av, cr, ev.blockTxBytes)
 }
 
 // error classes: keep in sync with coq/model/EvalCow.v (E_*)
